@@ -8,14 +8,14 @@ from tartiflette.resolver.default import gather_arguments_coercer, sync_argument
 
 META = {
     "bounds": "<= 5 suspending resolvers / argument hooks per request (<= 120 completion orders, every one explored), 8 engine configurations "
-              "(coerce_list_concurrently x coerce_parent_concurrently x arguments coercer gather/sync) + per-field overrides; 4 gate layouts incl. a failing non-null leaf",
+              "(coerce_list_concurrently x coerce_parent_concurrently x arguments coercer gather/sync) + per-field overrides; 5 gate layouts incl. failing non-null leaves and a list of non-null items with two failing items",
     "outside": "more than 5 simultaneously pending resolvers; interleavings inside asyncio's own callbacks (between two gate releases the engine is deterministic)",
     "explanation": "MiniLoop releases pending resolver gates in a solver-chosen order; the response must equal the FIFO/default-configuration response.",
 }
 SDL = """
 directive @g on ARGUMENT_DEFINITION
 type Leaf { n: Int! }
-type Mid { n: Int leaf: Leaf leaves: [Leaf] }
+type Mid { n: Int leaf: Leaf leaves: [Leaf] nnl: [Leaf!] }
 type Query { n: Int mid: Mid mids: [Mid] sum(a: Int @g, b: Int @g): Int m2: Mid }
 """
 LOG = []
@@ -66,14 +66,15 @@ Resolver("Query.mid", schema_name="c08_ov", parent_concurrently=False)(universal
 Resolver("Query.sum", schema_name="c08_ov", arguments_coercer=sync_arguments_coercer)(universal)
 ENGS.append(build(SDL, "c08_ov", custom_default_resolver=universal, query_cache_decorator=DictCache()))
 
-Q = "{ n mid { n leaf { n } leaves { n } } mids { n } sum(a: 1, b: 2) m2 { leaf { n } } }"
+Q = "{ n mid { n leaf { n } leaves { n } } mids { n } sum(a: 1, b: 2) m2 { leaf { n } nnl { n } } }"
 LEAF = {"n": 3}
 MID = {"n": 2, "leaf": LEAF, "leaves": [LEAF, {"n": 4}]}
-DATA = {"n": 1, "mid": MID, "mids": [MID, {"n": 5}], "m2": {"leaf": {"n": 6}}}
+DATA = {"n": 1, "mid": MID, "mids": [MID, {"n": 5}], "m2": {"leaf": {"n": 6}, "nnl": [{"n": 7}, {"n": 8}, {"n": 9}]}}
 LAYOUTS = {
     "fields": ([("n",), ("mid", "n"), ("mid", "leaf", "n"), ("mids", 0, "n"), ("mids", 1, "n")], []),
     "args": ([("arg", "a"), ("arg", "b"), ("n",), ("mid",)], []),
     "fault": ([("n",), ("mid", "leaf", "n"), ("mid", "leaves", 0, "n"), ("mid", "leaves", 1, "n"), ("m2", "leaf", "n")], [("mid", "leaf", "n")]),
+    "nnlist": ([("m2", "nnl", 0, "n"), ("m2", "nnl", 1, "n"), ("m2", "nnl", 2, "n"), ("n",)], [("m2", "nnl", 0, "n"), ("m2", "nnl", 2, "n")]),
     "fault2": ([("mid",), ("m2", "leaf", "n"), ("mid", "leaves", 1, "n"), ("sum",)], [("m2", "leaf", "n"), ("mid", "leaves", 1, "n")]),
 }
 
@@ -111,7 +112,7 @@ def well_behaved(loop, log):
 
 
 @obligation(tier="quick", timeout=300, shards=[{"cfg": c, "layout": l} for l in LAYOUTS for c in range(len(ENGS))],
-            quick_shards=[0, 3, 8, 9 + 1, 9 + 6, 18, 18 + 2, 18 + 8, 27, 27 + 5],
+            quick_shards=[0, 3, 8, 9 + 1, 9 + 6, 18, 18 + 2, 18 + 8, 27, 27 + 5, 27 + 8, 36, 36 + 4],
             samples=[{"c0": 0, "c1": 0, "c2": 0, "c3": 0, "c4": 0}, {"c0": 3, "c1": 1, "c2": 2, "c3": 0, "c4": 1}],
             symbolic=["c0..c4: which pending resolver completes next (the completion order)"],
             selectors=["shard: engine configuration (9), gate layout (4)"],
